@@ -96,6 +96,14 @@ def pool_programs(r):
     for cls in r.sample(sorted(c for c in progs.FAULTS if c != 'duplicate-label'), 3):
         t = r.choice(progs.FAULTS[cls]).replace('{label}', lab)
         entries.append(('fail-' + cls, '%s:\n    nop\n%s\nalign 4\n    addi t0, t0, 1\n' % (lab, t)))
+    if r.random() < 0.35:
+        # two long programs: many objects are created and freed, so that anything keyed by id() or by object identity across
+        # calls has every chance to meet a recycled address
+        regs = ['x5', 'x6', 'x7', 'x28', 'x29', 'x30', 'x31']
+        big_nc = '\n'.join('    %s %s, %s, %s' % (r.choice(('add', 'mul', 'xor', 'sltu', 'div')), r.choice(regs), r.choice(regs), r.choice(regs)) for _ in range(140)) + '\n'
+        big_c = '%s:\n' % lab + '\n'.join(r.choice(('    addi s0, s0, 1', '    add s0, s0, s1', '    lw a0, 4(s1)', '    sw a0, 8(sp)', '    and a0, a0, a1', '    addi sp, sp, 16',
+                                                        '    slli t0, t0, 3', '    lui t0, 1', '    sub s1, s1, a0', '    addi t1, x0, 5')) for _ in range(140)) + '\n    j %s\n' % lab
+        entries += [('big-nc', big_nc), ('big-c', big_c)]
     for i, (kind, text) in enumerate(entries):
         if r.random() < 0.55 or kind == 'blob':
             p = '/w/proj/p%d.asm' % i
@@ -142,17 +150,20 @@ def make_history(r, nsteps=None):
             i = r.randrange(len(pool))
             if r.random() < 0.2:
                 i = r.choice([j for j, p in enumerate(pool) if p['kind'] in ('blob', 'clash', 'tree')])
+            bigs = [j for j, p in enumerate(pool) if p['kind'].startswith('big-')]
+            if bigs and r.random() < 0.15:
+                i = r.choice(bigs)
             # bias towards pairs: after a definer, run a user
             if ops and ops[-1]['op'] == 'assemble' and r.random() < 0.35:
                 prev = pool[ops[-1]['prog']]['kind']
                 want = {'definer': ('user', 'user-labels', 'redefine'), 'alias-definer': ('alias-user',), 'tree': ('user', 'user-labels'),
-                        'li-small': ('li-big',), 'li-big': ('li-small',), 'walrus-definer': ('walrus-user',), 'upper-reg': ('upper-const',), 'upper-const': ('upper-reg',), 'multi-alias': ('alias-user', 'user-labels')}.get(prev)
+                        'li-small': ('li-big',), 'li-big': ('li-small',), 'walrus-definer': ('walrus-user',), 'upper-reg': ('upper-const',), 'upper-const': ('upper-reg',), 'big-nc': ('big-c',), 'big-c': ('big-nc', 'big-c'), 'multi-alias': ('alias-user', 'user-labels')}.get(prev)
                 if want:
                     cands = [j for j, p in enumerate(pool) if p['kind'] in want]
                     if cands:
                         i = r.choice(cands)
             dicts = r.choice(('fresh', 'fresh', 'none', 'seeded'))
-            op = {'op': 'assemble', 'prog': i, 'compress': r.random() < 0.5, 'inc': r.choice(('shared', 'shared', 'none', 'own')),
+            op = {'op': 'assemble', 'prog': i, 'compress': (r.random() < 0.5) or (pool[i]['kind'].startswith('big-') and r.random() < 0.8), 'inc': r.choice(('shared', 'shared', 'none', 'own')),
                   'dicts': dicts, 'inject': draw_inject(r)}
             if dicts == 'seeded':
                 op['seed_consts'] = {k: r.randint(0, 2000) for k in r.sample(K, r.randint(1, 3))} if r.random() < 0.7 else {'SEEDED': 5, 'ALSO': 6}
